@@ -611,6 +611,22 @@ impl Transform {
     }
 } // end of Impl Transform
 
+#[cfg(feature = "verif")]
+impl Transform {
+    /// Verification hook: the stored matrix and the stored inverse, row major
+    pub fn verif_elements(&self) -> ([Float; 16], [Float; 16]) {
+        (self.elements, self.inv_elements)
+    }
+
+    /// Verification hook: builds a [`Transform`] from a matrix and its (claimed) inverse
+    pub fn verif_from_elements(elements: [Float; 16], inv_elements: [Float; 16]) -> Self {
+        Self {
+            elements,
+            inv_elements,
+        }
+    }
+}
+
 #[cfg(test)]
 mod testing {
     use super::*;
